@@ -390,8 +390,9 @@ def kernel(timeout=60, **kw):
 
 
 KERNEL_REPLAY = '''#!/usr/bin/env python
-# Replay of a kernel counterexample (axiomatised model => only a candidate): run the real kernel on a
-# neighbourhood of the solver's values and compare with exact rational arithmetic.
+# Replay of a kernel counterexample.  The axiomatised-rounding model over-approximates IEEE arithmetic, so
+# its model is only a candidate: run the REAL kernel around the solver's values and over every
+# thousandth of a BPM up to 300 BPM (plus a spread of larger ones) and compare with exact rationals.
 import os, sys
 from fractions import Fraction
 REPO = os.environ.get("VERIF_REPO", "/repo"); sys.path.insert(0, REPO)
@@ -399,19 +400,26 @@ import chartparse.chart
 import chartparse.tick as T
 d0, n0, R0 = %d, %d, %d
 bad = None
-for d in sorted({max(d0, 0), d0 + 1, 1, 7, 192, 10**5}):
-  for n in sorted({max(n0, 1), 1, 1953, 120000, 999999}):
-    for R in sorted({max(R0, 1), 1, 192, 480}):
-        s = Fraction(60000 * d, n * R)
-        if s > 10**6: continue
-        b = n / 1000
-        x = Fraction(T.seconds_from_ticks_at_bpm(d, b, R))
-        x1 = Fraction(T.seconds_from_ticks_at_bpm(d + 1, b, R))
-        if abs(x - s) > s / 2**50 or x1 < x or (d == 0 and x != 0) or (n * R <= 3 * 10**10 and x1 - x < Fraction(15, 10**7)):
-            bad = (d, n, R, float(x), float(s)); break
+ds = sorted({max(d0, 0), d0 + 1, 1, 7, 192, 10**5})
+ns = list(range(1, 300001)) + list(range(300001, 10**7, 9973)) + [max(n0, 1), 999999999]
+Rs = sorted({max(R0, 1), 1, 192, 480})
+for n in ns:
+    b = n / 1000
+    for R in Rs:
+        for d in ds:
+            s = Fraction(60000 * d, n * R)
+            if s > 10**6:
+                continue
+            try:
+                x = Fraction(T.seconds_from_ticks_at_bpm(d, b, R))
+                x1 = Fraction(T.seconds_from_ticks_at_bpm(d + 1, b, R))
+            except Exception as e:
+                bad = (d, n, R, type(e).__name__, str(e)); break
+            if abs(x - s) > s / 2**50 or x1 < x or (d == 0 and x != 0) or (n * R <= 3 * 10**10 and x1 - x < Fraction(15, 10**7)):
+                bad = (d, n, R, float(x), float(s)); break
+        if bad: break
     if bad: break
-  if bad: break
-print("first deviation:", bad)
+print("first deviation (ticks, BPM*1000, resolution, got, exact):", bad)
 print("REPRODUCED" if bad else "NOT-REPRODUCED"); sys.exit(1 if bad else 0)
 '''
 
